@@ -186,6 +186,19 @@ def judgeLine (a : Acc) (l : String) : Except Verdict Acc := do
       | .huge _ => "udf.huge-frame" | .error => "udf.error" | _ => "udf.ctl")
     let br := br ++ (if mo.any (fun o => match o with | .b _ => true | _ => false) then ["udf.batch-out"] else [])
     pure { (a.add br) with nt := a.nt || rs.length ≥ 3 }
+  | "udfwrite" :: kinds =>
+    let some ks := kinds.mapM (fun k => match k with
+      | "i" => some FKind.int | "f" => some .float | "s" => some .str | "b" => some .bool
+      | "d" => some .dur | "n" => some .nil | "t" => some .time | "u" => some .uint | _ => none) | throw (.badop l)
+    let written := match obs with
+      | [w, _] => if w == "-" then 0 else (w.splitOn ",").length
+      | _ => 0
+    if let some r := udfWriteSpec ks.length written obs then throw (fail r)
+    let (mw, mf) := udfWrite (Gen.udfPanicSites.isEmpty) ks
+    let ms := [if mw.isEmpty then "-" else ",".intercalate (mw.map (fun b => if b then "cv" else "c")),
+               match mf with | .clean => "ok" | .err => "err" | .trap => "crash"]
+    if ms != obs then throw (.mismatch s!"udfwrite: model {ms} observed {obs}")
+    pure { (a.add (ks.map (fun k => if k.supported then "udfwrite.supported" else "udfwrite.skipped-field"))) with nt := true }
   | ["live", node, bad] =>
     match obs with
     | ["X", how] =>
